@@ -220,6 +220,13 @@ def gen_C04(rng, tier):
         out.append(('paffine %d %d 0' % P, 'paffine/Z=0'))
     out.append(('paffine 0 0 0', 'paffine/Z=0'))
     out.append(('paffine %d %d 0' % (rng.randrange(Q), rng.randrange(Q)), 'paffine/Z=0'))
+    for P in rng.sample(pts, min(len(pts), 6 if tier == 'quick' else 20)) + [(0, 1), (0, Q - 1)]:
+        T = rng.choice(pts)
+        for k in (1, 2, 3, 4):
+            out.append(('paddalias %d %d %d %d %d' % ((k,) + P + T), 'padd/alias-pattern%d' % k))
+        s0 = rng.choice([0, 1, 8, L, rng.randrange(ORDER)])
+        out.append(('mulzero %d %d %d' % ((s0,) + P), 'mul/zero-value-receiver'))
+        out.append(('mulshared %d %d %d' % ((s0,) + P), 'mul/receiver-shares-coordinates'))
     for P in pts:
         ss = scalars(rng, tier)
         for s in (rng.sample(ss, 6) if tier == 'quick' else ss):
@@ -449,6 +456,8 @@ def gen_C07(rng, tier):
         out.append(('signm %s %d' % (hexb(k0), m), 'SignMimc7/' + ('in-field' if 0 <= m < Q else 'msg-out-of-field')))
     for v in bad + good:
         out.append(('infield %d' % v, 'CheckBigIntInField'))
+    for arr in ([], [0], [Q - 1, 0, 1], [1, Q], [Q, 1], [1, -1, 1], [1, 2, 2**256], [Q - 1] * 20, [0, 1, 2, 3, Q]):
+        out.append(('infieldarr ' + lst(arr), 'CheckBigIntArrayInField'))
     for n in (0, 1, 30, 31, 32, 62, 63, 100):
         out.append(('mimcbytes ' + hexb(b'\xff' * n), 'mimc7.HashBytes/all-ff'))
     for b in (b'\x00', b'\x00\x00', bytes(31), bytes(32), bytes(62), bytes(63), b'\x01\x00', rnd_bytes(rng, 31) + b'\x00',
@@ -653,6 +662,8 @@ def gen_C09(rng, tier):
         out.append(('ffg exp %d %d' % (x, e), 'exp' + ('/e=0' if e == 0 else '')))
     for v in [0, 1, PG - 1, PG, PG + 1, 2**64 - 1, 2**64 - 2**32, 2**63] + [rng.randrange(PG, 2**64) for _ in range(20)] + [rng.randrange(2**64) for _ in range(20)]:
         out.append(('ffg setuint64 %d' % v, 'setuint64/' + ('>=p' if v >= PG else '<p')))
+    for x in cls[:6] + [rng.randrange(PG) for _ in range(3)]:
+        out.append(('ffg butterflyalias %d' % x, 'butterfly/a==b'))
     nzc = [v for v in cls if v != 0]
     for al in (0, 1, 2):
         out.append(('ffg div %d %d 0' % (al, rng.choice(nzc)), 'div/by-zero/alias%d' % al))
@@ -795,6 +806,8 @@ def gen_C18(rng, tier):
             d = mont(rng.randrange(p))
             out.append(('%s legendre %d' % (pre, mont(v)), 'legendre'))
             out.append(('%s sqrt %d %d' % (pre, d, mont(v)), 'sqrt'))
+        for v in vals[:12] + rng.sample(vals, min(len(vals), 30)):
+            out.append(('%s sqrtalias %d' % (pre, mont(v)), 'sqrt/destination-is-operand'))
     return out
 
 
@@ -834,6 +847,11 @@ def gen_C02(rng, tier):
     for m in (Q, Q + 1, -1, 2**256):
         out.append(('signp %s %d' % (hexb(ks[2]), m), 'SignPoseidon/msg-out-of-field'))
         out.append(('signm %s %d' % (hexb(ks[2]), m), 'SignMimc7/msg-out-of-field'))
+    for k in ks[:4]:
+        for m in rng.sample(msgs(rng, tier), 2):
+            out.append(('signverify p %s %d' % (hexb(k), m), 'chain/sign-encode-decode-verify'))
+            out.append(('signverify m %s %d' % (hexb(k), m), 'chain/sign-encode-decode-verify'))
+    out.append(('signverify p %s %d' % (hexb(ks[0]), Q), 'chain/msg-out-of-field'))
     # the derivation routes of the same keys, before and after signing with them
     for k in ks[:6]:
         out.insert(rng.randrange(len(out)), ('public %s' % hexb(k), 'Public/same-key-as-signing'))
